@@ -285,6 +285,24 @@ def skip_range_stream(rep, tier, seed):
         exprs.append("[%s]" % "; ".join("run_skip_range %d %d %d %d %d" % t for t in want_sites))
         expect.append((c, got, want_sites, r["out"]))
     found = 0
+    # skip-marked code formatted by a NESTED visitor (impl / trait items, closure bodies): its lines must not be reported either
+    W = "w" * 90
+    nested = {
+        "impl_method": "fn a() {}\nfn b() {}\nimpl X {\n    fn m() {}\n    #[rustfmt::skip]\n    fn skipped() {\n        let x = SKIPPED_%s;\n    }\n}\n" % W,
+        "trait_method": "fn a() {}\ntrait T {\n    fn m() {}\n    #[rustfmt::skip]\n    fn skipped() {\n        let x = SKIPPED_%s;\n    }\n}\n" % W,
+        "closure_statement": "fn a() {}\nfn b() {\n    let f = || {\n        first();\n        #[rustfmt::skip]\n        let x = SKIPPED_%s;\n        last()\n    };\n}\n" % W,
+        "function_statement": "fn a() {}\nfn b() {\n    first();\n    #[rustfmt::skip]\n    let x = SKIPPED_%s;\n    last()\n}\n" % W,
+    }
+    ncases = [{"text": t, "config": [["max_width", "60"], ["error_on_line_overflow", "true"]], "again": False, "lex": False, "entries": True} for t in nested.values()]
+    for (name, text), r in zip(nested.items(), common.run_vh_pool("pool", ncases, per_case_timeout=15)):
+        if not isinstance(r, dict) or r.get("out") is None or r.get("entries") is None:
+            continue
+        olines = r["out"].split("\n")
+        hit = [e[0] for e in r["entries"] if e[1] in (0, 1) and 1 <= e[0] <= len(olines) and "SKIPPED_" in olines[e[0] - 1]]
+        if hit:
+            if rep.violation("skipped_code_reported:nested_%s" % name, {"input": text, "out": r["out"], "entries": r["entries"], "skipped": r.get("skipped")},
+                             "a line of skip-marked code (%s) is reported: line(s) %r" % (name, hit)):
+                found += 1
     if exprs:
         vals = common.run_coq_cases("From V Require Import Base.Text C07.Model C07.Run.\nOpen Scope N_scope.", "", exprs, "c07skip", per_file=200)
         bad = 0
